@@ -22,7 +22,7 @@ Record authmsg_row := mk_authmsg {
   am_per_chain : bool      (* has a chain_name field: delivered once per bridge chain *)
 }.
 
-(* table (2): one row per fx-core method  (recv) Name(ctx, req *pkg.MsgX) (*Resp, error)
+(* table (2): one row per fx-core msg-server method taking a request pkg.MsgX
    whose request carries an Authority *)
 Record handler_row := mk_handler {
   h_url : string;
